@@ -340,11 +340,12 @@ def fexpr(v):
 
 class SV:
     """Dynamically typed symbolic value (z3 Val).  hint: what a heap reference in it points to."""
-    __slots__ = ('e', 'hint')
+    __slots__ = ('e', 'hint', 'origin')
 
-    def __init__(self, e, hint=None):
+    def __init__(self, e, hint=None, origin=None):
         self.e = e
         self.hint = hint
+        self.origin = origin      # the dict it was read from (owner of the objects its references denote)
 
     def __repr__(self):
         return f'SV({self.e})'
@@ -360,17 +361,59 @@ class SEnum:
 
 
 class ZList:
-    """list / deque with symbolic length.  elem: 'bytes' or 'val'."""
+    """list / deque.  elem: 'bytes' or 'val'.
+    Two modes: symbolic (Array Int -> elem, symbolic length) and concrete-length (`items`: a python
+    list of values, used while every operation on it has concrete positions -- lemma mode -- so that
+    the segment structure of byte strings survives a trip through the stack).  Reading .arr / .ln
+    derives the symbolic view; assigning them switches to symbolic mode."""
     _ids = itertools.count(1)
 
-    def __init__(self, elem, arr=None, ln=None, kind='list', maxlen=None):
+    def __init__(self, elem, arr=None, ln=None, kind='list', maxlen=None, items=None):
         self.elem = elem
-        sort = ARR_IB if elem == 'bytes' else ARR_IV
-        self.arr = arr if arr is not None else fresh('arr', sort)
-        self.ln = ln if ln is not None else fresh('len', I)
+        self._sort = ARR_IB if elem == 'bytes' else ARR_IV
+        self.items = items
+        if items is None:
+            self._arr = arr if arr is not None else fresh('arr', self._sort)
+            self._ln = ln if ln is not None else fresh('len', I)
+        else:
+            self._arr = self._ln = None
         self.kind = kind         # 'list' | 'deque' | 'tuple'
         self.maxlen = maxlen
         self.oid = next(ZList._ids)
+
+    def _derive(self):
+        if self.elem != 'bytes':
+            raise TypeError('concrete-length list of non-bytes values has no array view')
+        arr = z3.K(I, z3.Empty(BYTES))
+        for i, x in enumerate(self.items):
+            arr = z3.Store(arr, i, bexpr(x))
+        return arr
+
+    @property
+    def arr(self):
+        if self.items is not None:
+            return self._derive()
+        return self._arr
+
+    @arr.setter
+    def arr(self, v):
+        if self.items is not None:
+            self._ln = len(self.items)
+            self.items = None
+        self._arr = v
+
+    @property
+    def ln(self):
+        if self.items is not None:
+            return len(self.items)
+        return self._ln
+
+    @ln.setter
+    def ln(self, v):
+        if self.items is not None:
+            self._arr = self._derive()
+            self.items = None
+        self._ln = v
 
     def __repr__(self):
         return f'ZList#{self.oid}({self.kind},{self.elem},len={self.ln})'
